@@ -1,5 +1,8 @@
 From Ahb Require Import Model.Prelude Model.Grammar Gen.Gen_logic Gen.Gen_valmaps Gen.Gen_enums Model.EvalRC Model.EvalFC Model.EvalAhb Model.Validate
   Proofs.C13_validate Proofs.C14_sim.
+(* the regenerated tables are used through their equations only, whatever shape the generator gives them *)
+Arguments map_rvv : simpl never.
+Arguments combine_rvv : simpl never.
 Set Implicit Arguments.
 
 Section Invalid.
